@@ -27,19 +27,24 @@ struct Run {
     probes: Vec<(u64, u64)>,
 }
 
-fn render_once(progs: &[(String, String)], n: i64, m: i64, k: i64, fuel: Option<u64>) -> Run {
+fn render_once(prog: i64, progs: &[(String, String)], n: i64, m: i64, k: i64, fuel: Option<u64>) -> Run {
     let probes: Probes = Arc::new(Mutex::new(Vec::new()));
     let mut env = Environment::new();
     for (name, src) in progs {
         env.add_template_owned(name.clone(), src.clone()).expect("program must compile");
     }
     let p2 = probes.clone();
+    let fuel_on = fuel.is_some();
     env.add_function("probe", move |state: &State| -> String {
-        if let Some(l) = state.fuel_levels() {
-            p2.lock().unwrap().push(l);
+        match state.fuel_levels() {
+            Some(l) => p2.lock().unwrap().push(l),
+            // fuel is configured but this state has no tracker: recorded as levels that cannot add up
+            None if fuel_on => p2.lock().unwrap().push((0, 0)),
+            None => {}
         }
         String::new()
     });
+    install(&mut env, prog);
     env.set_fuel(fuel);
     let ctx = ctx(n, m, k);
     let tmpl = env.get_template("main").expect("main");
@@ -78,12 +83,12 @@ fn main() {
         let b = c.i128();
         let fuel = if b < 0 { None } else { Some(b as u64) };
         let progs = program(prog, n, m, k);
-        let free = render_once(&progs, n, m, k, None);
-        let r1 = render_once(&progs, n, m, k, fuel);
-        let r2 = render_once(&progs, n, m, k, fuel);
+        let free = render_once(prog, &progs, n, m, k, None);
+        let r1 = render_once(prog, &progs, n, m, k, fuel);
+        let r2 = render_once(prog, &progs, n, m, k, fuel);
         let r3 = {
             let progs = progs.clone();
-            std::thread::spawn(move || render_once(&progs, n, m, k, fuel)).join()
+            std::thread::spawn(move || render_once(prog, &progs, n, m, k, fuel)).join()
         };
         let r3 = match r3 {
             Ok(r) => r,
